@@ -598,8 +598,22 @@ def eval_c20(case):
         return ev
     from . import c20 as _c20
 
+    if spec.get("strict") == "filter" and not any(c["name"] in {t["name"] for t in table["columns"]} for c in spec["columns"]):
+        ev.skipped = "strict='filter' removes every column (a polars frame without columns has no rows)"
+        return ev
+    tcols_ = {t["name"]: t for t in table["columns"]}
+    if any(ch["kind"] == "unique_values_eq" and any(v is None for v in tcols_.get(col["name"], {"cells": []})["cells"])
+           for col in spec["columns"] for ch in col.get("checks", [])):
+        ev.skipped = "unique_values_eq on a null-holding column (polars counts null as a value: scored as a known finding in C02/C08)"
+        return ev
     n = sp.table_nrows(table)
     P = _c20.positions(n, {"head": opts.get("head"), "tail": opts.get("tail")})
+    if opts.get("sample") is not None:
+        import polars as pl
+
+        # the sampled positions: the same call on a frame that only carries a row id (same height, same seed)
+        sampled = pl.DataFrame({"_pos": list(range(n))}).sample(n=opts["sample"], seed=opts.get("random_state"))["_pos"].to_list()
+        P = sorted(set(P or []) | set(sampled))
     try:
         ref_sub = refmodel.ref_validate(spec, table, rows=P, restrict_all=True)
         ref_full = refmodel.ref_validate(spec, table)
@@ -621,7 +635,7 @@ def eval_c20(case):
         return ev
     container = case.get("container", "df")
     ev.labels.append("container=" + container)
-    ev.labels.append("opts=" + ("+".join(k for k in ("head", "tail") if opts.get(k) is not None) or "none"))
+    ev.labels.append("opts=" + ("+".join(k for k in ("head", "tail", "sample") if opts.get(k) is not None) or "none"))
     rows = list(zip(*[c["cells"] for c in table["columns"]]))
     dup_rows_in_P = P is not None and len({repr(rows[i]) for i in P}) != len(P)
     if dup_rows_in_P:
@@ -692,6 +706,10 @@ def strat_c20(draw):
             opts["head"] = draw(st.sampled_from([b, b + 1]))
         else:
             opts["tail"] = draw(st.sampled_from([n - b - 1, n - b]))
+    if draw(st.integers(0, 3)) == 0:
+        k = draw(st.integers(0, n))
+        opts["sample"] = k
+        opts["random_state"] = draw(st.integers(0, 50))
     case["opts"] = opts
     if draw(st.integers(0, 3)) == 0:
         case["head_all_relation"] = True
